@@ -10,7 +10,9 @@ K2 random test cases with assertions on used / unused / earlier values go throug
 S  independent oracle: assertions per statement before vs. after, asserts per statement in the
    written file (python's parser); end-to-end pipeline runs (assertion generation -> [assertion
    minimisation] -> post-processing -> export) compare a snapshot taken before post-processing
-   with the exported file.
+   with the exported file; suites through the real statement minimisers (CASE forward/backward,
+   COMBINED, stub coverage making asserted statements redundant) + real export: no assertion-
+   protected statement removed, surviving statements keep their assertions (post_oracle).
 """
 from __future__ import annotations
 
@@ -272,6 +274,242 @@ def direct(r, n_cases, scratch: Path):
     return rcases, ecases, fails, stats
 
 
+# ------------------------------------------------------------------------------------------------
+# post-processing path: real statement minimisation (assertion-protected variables) + real export
+GRE = __import__("re").compile(r"mod_0\.g(\d+)\(")
+
+
+class StubCoverage:
+    """Duck-typed TestSuiteCoverageFunction: fraction of the needed calls still present."""
+
+    def __init__(self, needed):
+        self.needed = set(needed)
+
+    def compute_coverage(self, suite) -> float:
+        if not self.needed:
+            return 1.0
+        present = set()
+        for c in suite.test_case_chromosomes:
+            present |= {int(m) for m in GRE.findall(c.test_case.to_code())}
+        return len(self.needed & present) / len(self.needed)
+
+
+def src_class(src):
+    root, *rest = src.split(".")
+    if not L.VAR_RE.match(root):
+        return "module"
+    return "bare" if not rest else ("dotted1" if len(rest) == 1 else "dottedN")
+
+
+def build_post_test(r):
+    """(TestCase, spec) where spec[i] = dict(code, bv, uses, srcs); calls are mod_0.g<k>(...) with repeating k
+    so that statements are redundant for the stub coverage."""
+    import libcst as cst
+    import pynguin.assertion.assertion as ass
+    from pynguin.testcase.testcase import Statement, TestCase
+
+    tc = TestCase()
+    n = r.choice([2, 3, 4, 5, 7])
+    nf = max(2, n - r.choice([0, 1, 2]))
+    bound, spec = [], []
+    style = r.choice(["bare", "dotted1", "dottedN", "mixed", "mixed", "module"])
+    for _ in range(n):
+        uses = r.sample(bound, min(len(bound), r.choice([0, 0, 1, 1, 2]))) if bound else []
+        call = f"mod_0.g{r.randrange(nf)}({', '.join(uses)})"
+        bv = None if r.random() < 0.12 else f"var_{len(bound)}"
+        code = call if bv is None else f"{bv} = {call}"
+        srcs = []
+        for _ in range(r.choice([0, 0, 1, 1, 2])):
+            k = r.random()
+            target = bv if (bv is not None and k < 0.7) else (r.choice(bound) if bound and k < 0.9 else None)
+            st = style if style != "mixed" else r.choice(["bare", "dotted1", "dottedN", "module"])
+            if target is None or st == "module":
+                srcs.append(r.choice(["mod_0.K.counter", "mod_0.K.inner.counter", "mod_0.flag"]))
+            elif st == "bare":
+                srcs.append(target)
+            elif st == "dotted1":
+                srcs.append(target + ".fld")
+            else:
+                srcs.append(target + r.choice([".inner.value", ".inner.tag", ".a.b.c"]))
+        if srcs and bv is not None and not any(x.split(".", 1)[0] == bv for x in srcs) and r.random() < 0.75:
+            srcs.insert(0, bv if style in ("bare", "module", "mixed") else bv + (".fld" if style == "dotted1" else ".inner.value"))
+        asserts = [r.choice([lambda s_: ass.ObjectAssertion(s_, 3), lambda s_: ass.FloatAssertion(s_, 1.5),
+                             lambda s_: ass.CollectionLengthAssertion(s_, 2)])(s_) for s_ in srcs]
+        if r.random() < 0.08:
+            asserts.append(ass.ExceptionAssertion("builtins", "ValueError"))
+        if bv is not None:
+            bound.append(bv)
+        tc._statements.append(Statement(node=cst.parse_statement(code + "\n"), bound_variable=bv,
+                                        bound_type=r.choice(TYPES) if bv else None, assertions=asserts))
+        spec.append({"code": code, "call": call, "bv": bv, "uses": uses, "srcs": srcs,
+                     "rendered": [rendered_text(a) for a in asserts if rendered_text(a) is not None]})
+    tc._var_counter = len(bound)
+    tc._rebuild_registry()
+    return tc, spec
+
+
+def post_oracle(spec, items_raw, strategy):
+    """Independent of postprocess.py.  Every assertion present before post-processing must follow its
+    statement in the written function.  A carrier statement that was removed is a violation when its own
+    variable is asserted on somewhere in the test, or is read (transitively) by the binding statement of an
+    asserted variable -- such statements are assertion-protected; a removed carrier whose own value nobody
+    asserts on is reported under its own signature (recorded finding).  Every variable a written assert
+    mentions must be bound by an earlier written statement.
+    items_raw: [("stmt", code) | ("assert", text)] of the written function (None: function missing)."""
+    import re
+
+    binder = {s["bv"]: i for i, s in enumerate(spec) if s["bv"] is not None}
+    why = {}
+    for s in spec:
+        for src in s["srcs"]:
+            root = src.split(".", 1)[0]
+            if root in binder:
+                why.setdefault(binder[root], src_class(src))
+    todo = list(why)
+    while todo:
+        i = todo.pop()
+        for u in spec[i]["uses"]:
+            if u in binder and binder[u] not in why:
+                why[binder[u]] = "dependency"
+                todo.append(binder[u])
+    groups = []
+    for kind, txt in (items_raw or []):
+        if kind == "stmt":
+            groups.append([txt, []])
+        elif groups:
+            groups[-1][1].append(txt)
+    bound_at = {}
+    for j, (code, _) in enumerate(groups):
+        m = re.match(r"(var_\d+) = ", code)
+        if m:
+            bound_at[m.group(1)] = j
+    out = []
+    defined = set()
+    for code, asserts in groups:
+        m = re.match(r"(var_\d+) = ", code)
+        if m:
+            defined.add(m.group(1))
+        for a in asserts:
+            for v in re.findall(r"\bvar_\d+\b", a):
+                if v not in defined:
+                    out.append((f"post:assert-on-unbound:{strategy}", f"written assert `{a}` mentions {v}, which no "
+                                f"earlier written statement binds"))
+    n_orig_call, n_written_call = {}, {}
+    for s in spec:
+        n_orig_call[s["call"]] = n_orig_call.get(s["call"], 0) + 1
+    for code, _ in groups:
+        if not re.match(r"var_\d+ = ", code):
+            n_written_call[code] = n_written_call.get(code, 0) + 1
+    for i, s in enumerate(spec):
+        exp = [norm_assert(a) for a in s["rendered"]]
+        if s["bv"] is not None and s["bv"] in bound_at:
+            got = groups[bound_at[s["bv"]]][1]
+            if exp != [norm_assert(a) for a in got]:
+                out.append((f"post:assertion-dropped:{strategy}", f"statement {i} `{s['code']}` had {s['rendered']}, the "
+                            f"written function has {got}"))
+            continue
+        cands = [g for g in groups if g[0] == s["call"]]
+        if i in why and not cands:
+            out.append((f"post:asserted-statement-removed:{strategy}:{why[i]}",
+                        f"statement {i} `{s['code']}` is assertion-protected ({why[i]} source refers to its variable) "
+                        f"and was removed by statement minimisation ({strategy})"))
+            continue
+        if not exp or any(exp == [norm_assert(a) for a in g[1]] for g in cands):
+            continue
+        if i in why:
+            out.append((f"post:asserted-statement-removed:{strategy}:{why[i]}",
+                        f"statement {i} `{s['code']}` with assertions {s['rendered']} is assertion-protected ({why[i]}) "
+                        f"and is missing from the written function"))
+        elif n_written_call.get(s["call"], 0) < n_orig_call[s["call"]] or not cands:
+            out.append((f"post:carrier-removed:{strategy}",
+                        f"statement {i} `{s['code']}` carried {s['rendered']} (its own value is not asserted on) and "
+                        f"was removed together with these assertions"))
+        else:
+            out.append((f"post:assertion-dropped:{strategy}", f"statement {i} `{s['code']}` had {s['rendered']}; no "
+                        f"written `{s['call']}` statement is followed by them"))
+    return out
+
+
+def raw_items(fn, src):
+    out = []
+    for st in fn.body:
+        if isinstance(st, ast.Pass):
+            continue
+        seg = textwrap.dedent(ast.get_source_segment(src, st))
+        out.append(("assert" if isinstance(st, ast.Assert) else "stmt", seg.strip()))
+    return out
+
+
+def post_cases(r, n_cases, scratch: Path, only_seeds=None):
+    """Suites through the real post-processing visitors (CASE forward/backward, COMBINED) and the writer."""
+    import pynguin.ga.postprocess as pp
+    import pynguin.ga.testcasechromosome as tcc
+    import pynguin.ga.testsuitechromosome as tsc
+    from pynguin.testcase import export
+    from pynguin.utils.orderedset import OrderedSet
+
+    fails, stats = [], {}
+    corpus = [c for c in json.loads((vlib.VERIF / "corpus" / "C19.json").read_text()) if "post_seed" in c]
+    seeds = only_seeds if only_seeds is not None else (
+        [c["post_seed"] for c in corpus] + [r.randrange(10**9) for _ in range(n_cases)])
+    for k, seed in enumerate(seeds):
+        rr = random.Random(seed)
+        strategy = rr.choice(["CASE-F", "CASE-B", "COMBINED"])
+        suite = tsc.TestSuiteChromosome()
+        specs = {}
+        fids = set()
+        for _ in range(rr.choice([1, 1, 2, 3])):
+            tc, spec = build_post_test(rr)
+            specs[id(tc)] = (tc, spec)
+            suite.add_test_case_chromosome(tcc.TestCaseChromosome(test_case=tc))
+            fids |= {int(m) for s_ in spec for m in GRE.findall(s_["code"])}
+        covs = OrderedSet([StubCoverage([f for f in sorted(fids) if rr.random() < 0.5])])
+        if rr.random() < 0.25:
+            covs.add(StubCoverage([f for f in sorted(fids) if rr.random() < 0.3]))
+        for _, spec in specs.values():
+            for s_ in spec:
+                for src in s_["srcs"]:
+                    stats["post:source:" + src_class(src)] = stats.get("post:source:" + src_class(src), 0) + 1
+        before = sum(len(sp) for _, sp in specs.values())
+        if strategy == "COMBINED":
+            suite.accept(pp.CombinedMinimizationVisitor(covs))
+        else:
+            vis = pp.ForwardIterativeMinimizationVisitor(covs) if strategy == "CASE-F" else pp.BackwardIterativeMinimizationVisitor(covs)
+            suite.accept(pp.TestCasePostProcessor([pp.UnusedStatementsTestCaseVisitor(), vis]))
+        suite.accept(pp.EmptyTestCaseRemover())
+        after = sum(c.test_case.size() for c in suite.test_case_chromosomes)
+        stats["post:" + strategy] = stats.get("post:" + strategy, 0) + 1
+        stats["post:statements-removed"] = stats.get("post:statements-removed", 0) + before - after
+        survivors = [id(c.test_case) for c in suite.test_case_chromosomes]
+        path = export.TestSuiteWriter().write(suite, "c19_module_that_does_not_exist", scratch / f"p{k}",
+                                              format_with_black=False)
+        text = path.read_text()
+        fns = [n for n in ast.parse(text).body if isinstance(n, ast.FunctionDef) and n.name.startswith("test_")
+               and n.name != "test_empty"]
+        found = None
+        if len(fns) != len(survivors):
+            found = ("post:function-count", f"{len(survivors)} test cases after post-processing, {len(fns)} functions written")
+        else:
+            written = {tid: raw_items(fn, text) for tid, fn in zip(survivors, fns)}
+            found = []
+            for tid, (tc, spec) in specs.items():
+                found += post_oracle(spec, written.get(tid), strategy)
+        if isinstance(found, tuple):
+            found = [found]
+        seen_here = set()
+        for sig, msg in found or []:
+            if sig not in seen_here:
+                seen_here.add(sig)
+                fails.append({"signature": sig, "message": msg + f" [post_seed {seed}]", "replay": {"post_seed": seed}})
+    return fails, stats
+
+
+
+def post_cases_single(seed, scratch):
+    """Replay one post-processing suite."""
+    return post_cases(None, 0, scratch, only_seeds=[seed])
+
+
 def spec_of(before, snap, tc, bb):
     """Replayable description of a generated test case (statement code, bound variable, assertions)."""
     import pynguin.assertion.assertion as ass
@@ -438,7 +676,15 @@ def run(ctx: vlib.Ctx):
     async_res = pool.map_async(e2e, tasks, chunksize=1)
     r = random.Random(ctx.rng.randrange(10**9))
     rcases, ecases, fails, stats = direct(r, 500 if ctx.quick else 6000, scratch)
-    ctx.log(f"direct: {len(rcases)} remove_unused_variables cases, {len(ecases)} export cases, {len(fails)} oracle failures")
+    pfails, pstats = post_cases(r, 300 if ctx.quick else 4000, scratch)
+    for k_, v_ in pstats.items():
+        stats[k_] = v_
+    for i_ in range(pstats.get("post:CASE-F", 0) + pstats.get("post:CASE-B", 0) + pstats.get("post:COMBINED", 0)):
+        ctx.case_seen(("post", i_, ctx.seed), nontrivial=True)
+    fails += pfails
+    ctx.log(f"direct: {len(rcases)} remove_unused_variables cases, {len(ecases)} export cases, "
+            f"{sum(v for k, v in pstats.items() if k in ('post:CASE-F', 'post:CASE-B', 'post:COMBINED'))} post-processing suites, "
+            f"{len(fails)} oracle failures")
     for k, v in sorted(stats.items()):
         ctx.count(k, v)
     seen_sig = set()
@@ -502,8 +748,9 @@ def run(ctx: vlib.Ctx):
         "assertion sources are abstracted to their root variable; rendering itself (assertion_to_cst) is C20's subject: an "
         "assertion is identified in the written file by the text assertion_to_cst produces for it",
         "ExceptionAssertion is rendered structurally (pytest.raises / xfail) and is outside `renderable`",
-        "statement minimisation (IterativeMinimizationVisitor etc., C22) is outside this property's model; end-to-end runs "
-        "assert with strategy NONE and only measure with strategy CASE",
+        "statement minimisation is not in C19's Coq model (its protection theorems are C22's); the real Forward/Backward/"
+        "Combined visitors + real export are driven with stub coverage functions and checked by an independent oracle; "
+        "whole-pipeline runs assert with strategy NONE and only measure with strategy CASE; SUITE is not driven",
     ]
     ctx.cov["trusted_base"] += ["hand-written model Base/TestCaseIR.v (remove_unused_variables) + Models/C19.v tied by correspondence (this run)",
                                 "harness/props/C19.py, harness/props/_c15_lib.py (abstraction, parsers of the written file)"]
@@ -527,6 +774,14 @@ def c_ecase_with_render(pre_abs, items):
 def replay(ctx, path):
     vlib.setup_impl_path()
     d = json.loads(open(path).read())["replay"]
+    if "post_seed" in d:
+        import pynguin.ga.postprocess as pp
+
+        rr = random.Random(d["post_seed"])
+        print("strategy:", rr.choice(["CASE-F", "CASE-B", "COMBINED"]))
+        fs, _ = post_cases_single(d["post_seed"], ctx.mkscratch())
+        print(json.dumps(fs, indent=1))
+        return 0
     if "statements" in d:
         r = random.Random(0)
         tc = build_tc(r, len(d["statements"]), d["statements"])
